@@ -263,7 +263,12 @@ def check_conv(ctx, rule_rt='AGREE-3'):
         if ap:
             same.append(('apertures', sym('cap', A), (A,)))
         for name, ref, dims in same:
-            okk = compare(ctx, rule_rt, '%s: %s' % (tag, name), where_, _attr(Ir, out, name, fr), ref, dims, vocab=vocab, findings=fnd, detail_ok='read back as written')
+            got = _attr(Ir, out, name, fr)
+            if name == 'model_names' and isinstance(got, Arr):
+                # the MODEL_NAME column of a convolved-flux file is 30 characters wide - the format's own limit, which model names are taken to respect; a
+                # narrower field would cut names the format allows
+                got = got.with_(poly=alg.rebuild(got.poly, lambda a: Poly.from_key(a[2][1]) if a[0] == 'fn' and a[1] == 'cut' and len(a) == 4 and a[3][0] == 'C' and a[3][1] >= 30 else None))
+            okk = compare(ctx, rule_rt, '%s: %s' % (tag, name), where_, got, ref, dims, vocab=vocab, fns={'cut'}, findings=fnd, detail_ok='read back as written')
             if not okk and not any(o.rule == rule_rt and o.instance == '%s: %s' % (tag, name) and o.status == 'VIOLATION' for o in ctx.obs):
                 decided = False
         if not ap:
